@@ -54,6 +54,8 @@ REQUESTS = [
     ("partial-list-item", {"query": "{ l { x } }", "custom": {"Obj.x": "sync"}, "overrides": {"l.1.x": "err"}}, ["query", "parsing", "validation", "execution"]),
     ("partial-nonnull", {"query": "{ c n { y } }", "custom": {"Query.c": "async", "Obj.y": "async"}, "overrides": {"n.y": "null"}}, ["query", "parsing", "validation", "execution"]),
     ("partial-parent", {"query": "{ o { x } a }", "custom": {"Query.o": "async", "Obj.x": "sync"}, "overrides": {"o": "err"}}, ["query", "parsing", "validation", "execution"]),
+    ("partial-lazy-list", {"query": "{ l { x } b }", "custom": {"Query.l": "async", "Obj.x": "sync", "Query.b": "sync"}, "overrides": {"l": "lazy-err"}}, ["query", "parsing", "validation", "execution"]),
+    ("partial-resolve-type", {"query": "{ i { id } a }", "custom": {"Query.i": "sync", "Query.a": "async"}, "overrides": {"i": "type-err"}}, ["query", "parsing", "validation", "execution"]),
     ("mutation", {"query": "mutation { m3 m1 { x } }", "custom": {"Mutation.m3": "async", "Mutation.m1": "sync", "Obj.x": "async"}}, ["query", "parsing", "validation", "execution"]),
     ("mutation-partial", {"query": "mutation { m3 m5 }", "custom": {"Mutation.m3": "async", "Mutation.m5": "async"}, "overrides": {"m3": "err"}}, ["query", "parsing", "validation", "execution"]),
     ("preparsed", {"query": "{ a b }", "custom": {"Query.a": "sync"}, "preparsed": True}, ["query", "validation", "execution"]),
@@ -138,8 +140,8 @@ def monitor(world, obs, scn, stages):
     for n, name, path in groups:
         stage, _, kind = name.rpartition("_")
         if stage == "field":
-            if "execution" not in stack:
-                probs.append(("field-hook-outside-execution", "%s %s with open stages %s" % (name, path, stack)))
+            # (field hooks after the execution stage closed -- items of a failed list still running -- are
+            # not ordered by the property; they are only checked for pairing below)
             continue
         if kind == "start":
             seen[stage] = seen.get(stage, 0) + 1
@@ -166,10 +168,26 @@ def monitor(world, obs, scn, stages):
         expected = sorted(_field_paths(data))
         starts = sorted(g[2] for g in groups if g[1] == "field_start")
         ends = sorted(g[2] for g in groups if g[1] == "field_end")
-        if starts != expected:
-            probs.append(("field-start-count", "field_start paths %s expected %s" % (starts, expected)))
-        if ends != expected:
-            probs.append(("field-end-count", "field_end paths %s expected %s" % (ends, expected)))
+        # every field that was resolved: exactly one start and one end.  A field can be resolved and its
+        # value discarded later (an item of a list whose iteration then fails), so the set derived from the
+        # final data is a lower bound, not the exact set.
+        dup = sorted({p for p in starts if starts.count(p) > 1})
+        if dup:
+            probs.append(("field-start-count", "field_start fired more than once for %s" % dup))
+        missing = [p for p in expected if p not in starts]
+        if missing:
+            probs.append(("field-start-count", "no field_start for resolved fields %s (got %s)" % (missing, starts)))
+        # items of a lazily evaluated list whose iteration failed: their resolution may have been started
+        # (hook fired, coroutine created) and abandoned before the resolver was ever invoked -- such a field
+        # was not "resolved", so no end hook is demanded for it
+        lazy_roots = [p for p, o in (scn.get("overrides") or {}).items() if o == "lazy-err"]
+        invoked = {e[1] for e in log if e[0] == "invoke"}
+        abandoned = [q for q in starts if q not in invoked and q not in ends and any(q.startswith(p + ".") for p in lazy_roots)]
+        if abandoned:
+            starts = [q for q in starts if q not in abandoned]
+        if ends != starts:
+            probs.append(("field-end-count", "field_end paths %s but field_start paths %s" % (ends, starts)))
+        expected = starts
         first_start = {}
         last_end = {}
         for n, name, path in groups:
@@ -200,7 +218,7 @@ def monitor(world, obs, scn, stages):
                 a = after.get(p)
                 if a is not None and a != mtags[: len(a)] and a != mtags:
                     probs.append(("middleware-after", "field %s left middlewares %s expected prefix of %s" % (p, a, mtags)))
-            extra = sorted(set(before) - set(expected))
+            extra = sorted(set(before) - set(expected) - set(abandoned))
             if extra:
                 probs.append(("middleware-extra", "middlewares ran for unresolved fields %s" % extra))
         # ---- 5. tracer payload
@@ -209,10 +227,11 @@ def monitor(world, obs, scn, stages):
                 pl = world.tracer.payload()
                 res = (pl.get("execution") or {}).get("resolvers") or []
                 tp = sorted(".".join(str(x) for x in r["path"]) for r in res)
-                if tp != expected:
-                    probs.append(("tracer-resolvers", "tracer resolver paths %s expected %s" % (tp, expected)))
-                if any(r["duration"] is None for r in res):
-                    probs.append(("tracer-null-duration", "%s" % [r["path"] for r in res if r["duration"] is None]))
+                if tp != sorted(expected + abandoned):
+                    probs.append(("tracer-resolvers", "tracer resolver paths %s expected %s" % (tp, sorted(expected + abandoned))))
+                nulls = [r["path"] for r in res if r["duration"] is None and ".".join(str(x) for x in r["path"]) not in abandoned]
+                if nulls:
+                    probs.append(("tracer-null-duration", "%s" % nulls))
             except Exception as e:  # noqa
                 probs.append(("tracer-raises:%s" % type(e).__name__, repr(e)))
     return probs
